@@ -29,7 +29,7 @@ def _check_axis_values(values, dtype=None):
     """ convert Axis type to have "object" instead of string
     """
     try:
-        values = np.asarray(values, dtype=dtype)
+        values = np.array(values, dtype=dtype) # a copy: an Axis owns its labels
     except Exception as error:
         raise TypeError(error.message + "\n==> axis values could not be converted to numpy array")
 
